@@ -11,7 +11,7 @@ namespace Paho
 /-- exceptions the validation layer can raise -/
 inductive Exc where
   | valueError | typeError | structError | assertionError | mqttException | keyError | other
-  | indexError | unicodeError | malformedPacket
+  | indexError | unicodeError | malformedPacket | runtimeError
   deriving DecidableEq, Repr
 
 /-- `_filter_wildcard_len_check(sub) == MQTT_ERR_SUCCESS` -/
